@@ -57,7 +57,7 @@ G1a_2(z) == {G1aCase(e, sh, FALSE) : e \in Exprs2, sh \in {"named", "vunnamed"}}
 
 (* G1b: one generic definition D<T,U> with two fields, two instantiations used by a root *)
 FieldExprsB == {T, U, u8, P_Vec(T), P_Opt(U), P_Tup(<<T, U>>), P_Arr(T, 2), P_Box(T), P_Vec(P_Opt(T)), P_Phantom(T), P_Phantom(U),
-                P_BTreeMap(T, U), P_Adt("G", <<T>>), P_Res(T, U), P_Compact(u32), P_Vec(u16), P_Cow(T)}
+                P_BTreeMap(T, U), P_Adt("G", <<T>>), P_Res(T, U), P_Compact(u32), P_Vec(u16), P_Cow(T), P_Compact(T), P_Vec(P_Compact(U))}
 ArgPairs == {<<u8, bool>>, <<u16, u8>>, <<bool, bool>>, <<P_Vec(u8), u32>>, <<A0("U"), str>>}
 G1bDef(e1, e2, kind) ==
   IF kind = "struct" THEN Struct("D", Mod, <<Param("T"), Param("U")>>, <<SField("a", e1), SField("b", e2)>>)
@@ -91,9 +91,12 @@ SubE(x, y) == P_Adt("Sub", <<x, y>>)
 SubDef == Struct("Sub", Mod \o <<"sub">>, <<Param("A"), Param("B")>>, <<SField("a", P_Param("A")), SField("b", P_Param("B"))>>)
 SubPositions == {SubE(u8, bool), P_Vec(SubE(u8, bool)), P_Opt(SubE(u16, u8)), P_Tup(<<SubE(u8, bool), u8>>), P_Arr(SubE(u8, bool), 2),
                  P_Adt("G", <<SubE(u8, bool)>>), SubE(SubE(u8, bool), u16), P_BTreeMap(u8, SubE(u8, str)), P_Box(SubE(u8, bool)),
-                 P_Adt("DP", <<bool>>), P_Tup(<<P_Adt("DP", <<bool>>), P_Adt("DP", <<u16>>)>>), P_Vec(P_Vec(SubE(unit, u8)))}
+                 P_Adt("DP", <<bool>>), P_Tup(<<P_Adt("DP", <<bool>>), P_Adt("DP", <<u16>>)>>), P_Vec(P_Vec(SubE(unit, u8))),
+                 P_Adt("DP2", <<bool, u16>>)}
 DPDef == Struct("DP", Mod, <<Param("T")>>, <<SField("x", SubE(T, u8)), SField("y", P_Vec(SubE(u8, T))), SField("z", T)>>)
-G7Case(e, shape) == [fam |-> "G7", prog |-> Program(<<G1aDef(e, shape, FALSE), SubDef, DPDef>> \o Helpers, <<>>), roots |-> <<A0("S")>>]
+\* the substituted type under two parent parameters in swapped order, directly and nested
+DP2Def == Struct("DP2", Mod, <<Param("T"), Param("U")>>, <<SField("pair", SubE(U, T)), SField("t", T), SField("n", SubE(P_Opt(U), u64))>>)
+G7Case(e, shape) == [fam |-> "G7", prog |-> Program(<<G1aDef(e, shape, FALSE), SubDef, DPDef, DP2Def>> \o Helpers, <<>>), roots |-> <<A0("S")>>]
 G7(z) == {G7Case(e, sh) : e \in SubPositions, sh \in {"named", "vunnamed"}}
          \cup {[fam |-> "G7", prog |-> Program(<<Struct("S", Mod, <<>>, <<SField("a", SubE(u8, bool)), SField("b", P_Vec(SubE(u16, u8))), SField("c", P_Adt("DP", <<u32>>)),
                                                                            SField("d", P_BTreeMap(u8, u8))>>), SubDef, DPDef>> \o Helpers, <<>>),
